@@ -379,8 +379,15 @@ def kal_rules(ctx):
     at = A.atom
     S = A.add(A.mul(A.mul(at(H), at(P)), A.T(at(H))), at(R))
     # the factored matrix must be S
+    others = [sv.key()[:60] for _, (sv, _, _, _) in E.chol.items() if not A.eq(sv, S)]
     ctx.ob('KAL-GAIN', len(E.chol) == 1, None, 'exactly one Cholesky factorisation', f=f,
-           key='one-chol', why='%d Cholesky factorisations in kalman.correct' % len(E.chol))
+           key='one-chol',
+           why='%d Cholesky factorisations in kalman.correct%s' % (
+               len(E.chol), (': besides the innovation covariance it factorises %s, which is '
+                             'only positive SEMI-definite for an admissible input (a prior '
+                             'with an exactly known or perfectly correlated state, P = 0): '
+                             'the factorisation fails there' % ', '.join(others))
+               if others else ''))
     if len(E.chol) != 1:
         return
     fname, (Sv, Sat, lower, cnode) = next(iter(E.chol.items()))
